@@ -3,5 +3,8 @@
 set -eu
 ROOT="$(cd "$(dirname "$0")" && pwd)"
 export CARGO_NET_OFFLINE=true
+# always build into (and run from) the harness target directory, whatever the caller exported
+export CARGO_TARGET_DIR="$ROOT/harness/target"
+unset RUSTFLAGS CARGO_BUILD_RUSTFLAGS CARGO_ENCODED_RUSTFLAGS
 cd "$ROOT/harness"
 cargo build --release --offline --workspace
